@@ -121,3 +121,7 @@ def run(ctx, rep):
     rr = rep.rule("R.reach", "each validator is reached from Chart.from_file on every path of its caller and its ValueError "
                              "escapes: no handler for ValueError/Exception/bare encloses any call on the chain", floor=5)
     escape.check_reach_and_escape(ctx, rr, T)
+    rch = rep.rule("chain", "file -> lines (read().splitlines(), utf-8-sig) -> framing -> section route -> dispatcher -> builders: every link "
+                            "hands the lines on unchanged", floor=10)
+    from .chain import check_chain
+    check_chain(ctx, rch, "sync", strict="bpm")
